@@ -236,6 +236,13 @@ func registryCmd(job []byte, out *Out) error {
 				fn := filepath.Join(tmpdir, fmt.Sprintf("in%d.bin", in.ID))
 				if err := os.WriteFile(fn, data, 0600); err == nil {
 					ev["readgroup"] = firstDiff(randomness.ReadGroup(fn), own)
+					ln := filepath.Join(tmpdir, fmt.Sprintf("link%d.bin", in.ID))
+					if os.Symlink(fn, ln) == nil {
+						if d := firstDiff(randomness.ReadGroup(ln), own); d != -1 {
+							ev["readgroup"] = d
+						}
+						os.Remove(ln)
+					}
 					os.Remove(fn)
 				}
 				for i := range data {
@@ -335,6 +342,15 @@ func registryCmd(job []byte, out *Out) error {
 					if g[i] != bits[i] {
 						eq = false
 					}
+				}
+				// ... and through a symbolic link to it (relative target), as sample directories are often laid out
+				ln := filepath.Join(tmpdir, fmt.Sprintf("link%d.bin", in.ID))
+				if os.Symlink(filepath.Base(fn), ln) == nil {
+					g2 := randomness.ReadGroup(ln)
+					if firstDiff(g2, bits) != -1 {
+						eq = false
+					}
+					os.Remove(ln)
 				}
 				ev["readgroup"] = eq
 				os.Remove(fn)
